@@ -44,7 +44,21 @@ var relations = []relation{
 	{name: "symlinked-dir", alias: true},
 }
 
+// existingMeansSomethingElse: operations whose contract for an EXISTING output is not "replace it":
+// ImportImagesFile appends pages to an existing PDF (the /append variant drives that on purpose);
+// pdfcpu.Write / CopyFile with overwrite=false leave an existing destination alone and return (false, nil).
+func existingMeansSomethingElse(name string) bool {
+	switch name {
+	case "ImportImagesFile/new", "ImportImagesFile/config", "pdfcpu.CopyFile/new", "pdfcpu.Write/new":
+		return true
+	}
+	return false
+}
+
 func applies(op opcat.Op, r relation) bool {
+	if strings.HasPrefix(r.name, "existing") && existingMeansSomethingElse(op.Name) {
+		return false
+	}
 	if op.Kind == opcat.DirOut {
 		return r.name == "new"
 	}
@@ -312,7 +326,7 @@ func runItem(t *vk.T, fx string, it item) {
 			viol("output-incomplete", fmt.Sprintf("incrementally updated file: validate err=%v pages=%d (reference %d)", gerr, gp, rp))
 		}
 	} else {
-		if ok, why := pdfcmp.SameOutput(filepath.Join(refRoot, op.OutName), dest, 256); !ok {
+		if ok, why := pdfcmp.SameOutputMasking(filepath.Join(refRoot, op.OutName), dest, 256, refRoot, root); !ok {
 			viol("output-incomplete", why)
 		}
 	}
